@@ -16,7 +16,7 @@ def sh(cmd, **kw):
 
 
 def prepare(k):
-    root = f"/tmp/ev/{k}"
+    root = os.path.join(os.environ.get("PAR_EVAL_ROOT", "/tmp/ev"), str(k))
     v, rp = f"{root}/verif", f"{root}/repo"
     os.makedirs(root, exist_ok=True)
     if os.path.exists(rp):
